@@ -82,14 +82,29 @@ pub enum Ev<T> {
 
 pub struct Log<T> {
     pub events: Vec<Ev<T>>,
+    /// when set: a child call that would make `events` longer than this panics with "SPIN" (a poll that never
+    /// returns would otherwise hang the harness)
+    pub spin_guard: Option<usize>,
     /// wakers stored by children that answered Pending, with the child that holds each
     pub wakers: Vec<(char, usize, Waker)>,
+}
+
+impl<T> Log<T> {
+    pub fn push(&mut self, e: Ev<T>) {
+        if let Some(g) = self.spin_guard {
+            if self.events.len() >= g {
+                self.spin_guard = None;
+                panic!("SPIN: the future under test keeps calling its children without returning");
+            }
+        }
+        self.events.push(e);
+    }
 }
 
 pub type SharedLog<T> = Arc<Mutex<Log<T>>>;
 
 pub fn new_log<T>() -> SharedLog<T> {
-    Arc::new(Mutex::new(Log { events: vec![], wakers: vec![] }))
+    Arc::new(Mutex::new(Log { events: vec![], spin_guard: None, wakers: vec![] }))
 }
 
 pub struct MockSink<T> {
@@ -114,7 +129,7 @@ fn answer<T>(me: char, id: usize, silent: bool, log: &SharedLog<T>, a: A, cx: &m
         A::Ready => Poll::Ready(Ok(())),
         A::Err => Poll::Ready(Err(format!("mock {me}{id} failed"))),
         A::Pending => {
-            if !silent { log.lock().unwrap().wakers.push((me, id, cx.waker().clone())); }
+            if !silent { log.lock().unwrap_or_else(|e| e.into_inner()).wakers.push((me, id, cx.waker().clone())); }
             Poll::Pending
         }
     }
@@ -124,22 +139,22 @@ impl<T: Clone + Unpin> Sink<T> for MockSink<T> {
     type Error = String;
     fn poll_ready(mut self: Pin<&mut Self>, cx: &mut Context<'_>) -> Poll<Result<(), String>> {
         let a = self.script.ready.pop_front().unwrap_or(A::Ready);
-        self.log.lock().unwrap().events.push(Ev::SinkReady(self.id, a));
+        self.log.lock().unwrap_or_else(|e| e.into_inner()).push(Ev::SinkReady(self.id, a));
         answer(self.kind, self.id, self.silent, &self.log, a, cx)
     }
     fn start_send(mut self: Pin<&mut Self>, item: T) -> Result<(), String> {
         let ok = self.script.send.pop_front().unwrap_or(true);
-        self.log.lock().unwrap().events.push(Ev::SinkSend(self.id, item, ok));
+        self.log.lock().unwrap_or_else(|e| e.into_inner()).push(Ev::SinkSend(self.id, item, ok));
         if ok { Ok(()) } else { Err(format!("mock {}{} refused the item", self.kind, self.id)) }
     }
     fn poll_flush(mut self: Pin<&mut Self>, cx: &mut Context<'_>) -> Poll<Result<(), String>> {
         let a = self.script.flush.pop_front().unwrap_or(A::Ready);
-        self.log.lock().unwrap().events.push(Ev::SinkFlush(self.id, a));
+        self.log.lock().unwrap_or_else(|e| e.into_inner()).push(Ev::SinkFlush(self.id, a));
         answer(self.kind, self.id, self.silent, &self.log, a, cx)
     }
     fn poll_close(mut self: Pin<&mut Self>, cx: &mut Context<'_>) -> Poll<Result<(), String>> {
         let a = self.script.close.pop_front().unwrap_or(A::Ready);
-        self.log.lock().unwrap().events.push(Ev::SinkClose(self.id, a));
+        self.log.lock().unwrap_or_else(|e| e.into_inner()).push(Ev::SinkClose(self.id, a));
         answer(self.kind, self.id, self.silent, &self.log, a, cx)
     }
 }
@@ -157,12 +172,12 @@ impl<T: Clone + Unpin> Stream for MockStream<T> {
     fn poll_next(mut self: Pin<&mut Self>, cx: &mut Context<'_>) -> Poll<Option<Self::Item>> {
         let id = self.id;
         match self.script.pop_front() {
-            None => { self.log.lock().unwrap().events.push(Ev::StreamEnd(id)); Poll::Ready(None) }
-            Some(SAns::Item(t)) => { self.log.lock().unwrap().events.push(Ev::StreamItem(id, t.clone())); Poll::Ready(Some(Ok(t))) }
-            Some(SAns::Err) => { self.log.lock().unwrap().events.push(Ev::StreamErr(id)); Poll::Ready(Some(Err(SeliumError::RequestFailed))) }
+            None => { self.log.lock().unwrap_or_else(|e| e.into_inner()).push(Ev::StreamEnd(id)); Poll::Ready(None) }
+            Some(SAns::Item(t)) => { self.log.lock().unwrap_or_else(|e| e.into_inner()).push(Ev::StreamItem(id, t.clone())); Poll::Ready(Some(Ok(t))) }
+            Some(SAns::Err) => { self.log.lock().unwrap_or_else(|e| e.into_inner()).push(Ev::StreamErr(id)); Poll::Ready(Some(Err(SeliumError::RequestFailed))) }
             Some(SAns::Pending) => {
-                let mut l = self.log.lock().unwrap();
-                l.events.push(Ev::StreamPending(id));
+                let mut l = self.log.lock().unwrap_or_else(|e| e.into_inner());
+                l.push(Ev::StreamPending(id));
                 if !self.silent { l.wakers.push((self.kind, id, cx.waker().clone())); }
                 Poll::Pending
             }
